@@ -1336,10 +1336,13 @@ func (e *CEnv) applySpec(sf *SpecFunc, argx []*CExpr) CVal {
 		app = mk(fname, rs, aterms...)
 	}
 	if rty == bstrType && v.inQuant == 0 {
-		key := "norm|" + app.String()
-		if !v.normDone[key] || true {
-			e.st.assume(e.normFact(app))
+		if containsOp(app, "ite") {
+			// patterns must not contain ite: name the application
+			c := v.fresh("bs", app.Sort)
+			e.st.assume(Eq(c, app))
+			app = c
 		}
+		e.st.assume(e.normFact(app))
 	}
 	if rty != nil && rty != bstrType && v.inQuant == 0 && v.mode != "bv" {
 		if _, _, isInt := intInfo(rty); isInt {
@@ -1672,4 +1675,19 @@ func litTreeToBV(t *Term, w int) *Term {
 		return BVLitB(t.Int, w)
 	}
 	return Ite(t.Args[0], litTreeToBV(t.Args[1], w), litTreeToBV(t.Args[2], w))
+}
+
+func containsOp(t *Term, op string) bool {
+	if t.IsLit {
+		return false
+	}
+	if t.Op == op {
+		return true
+	}
+	for _, a := range t.Args {
+		if containsOp(a, op) {
+			return true
+		}
+	}
+	return false
 }
